@@ -6,6 +6,8 @@ drv_unparse: line-protocol driver of the unparser model.
   unparseR <ruleset> <indent> <names> <tree>  as `unparse`, the Resolve hook (Obfuscator.resolve)
                                               answers with the next name of the list `names`
   chunks   <ruleset> <indent> <tree>          number of chunks of phase 1 and final Indentator level
+  tailsafe <ruleset> <indent> <tree>          the hypotheses of ends_with_one_newline_partial on this tree:
+                                              OK <tailSafe T|F> <tokensCleanB T|F>
   rulesets                                    the rule set ids
 
 <ruleset>  id of Gen.Rules.ruleSets; <indent> = N (None) or an encoded string ('…);
@@ -14,6 +16,7 @@ Reply      OK [ [ text line col name source ] … ]  with None → N, NotImpleme
            or ERR <PythonExceptionClass|unmodelled|fuel> <detail>.
 -/
 import CalmVerif.Model.UnparseInst
+import CalmVerif.Model.UnparseAux
 import CalmVerif.Util.Loop
 open CalmVerif CalmVerif.Unparse CalmVerif.Proto
 
@@ -84,6 +87,15 @@ def handle (line : String) : String :=
           let cfg := mkCfg tablesGen rs indent defaultResolve
           match walkChunks cfg tree () with
           | .ok (cs, _) => s!"OK {cs.length} {(flushAll cfg cs none [] 0).2}"
+          | .error e => errStr e
+      else if cmd == "tailsafe" then
+        withTree rest fun tree =>
+          let cfg := mkCfg tablesGen rs indent defaultResolve
+          match walkChunks cfg tree () with
+          | .ok (cs, _) =>
+            let a := tailSafe (normalize cfg.layout (trailing cs []))
+            let b := tokensCleanB cs
+            "OK " ++ (if a then "T" else "F") ++ " " ++ (if b then "T" else "F")
           | .error e => errStr e
       else if cmd == "unparseR" then
         match Val.parse rest with
